@@ -1,5 +1,6 @@
 """C02 — community detectors return a valid partition 1..k and its true modularity."""
 from fractions import Fraction as F
+import random
 import numpy as np
 from common import *
 import modq
@@ -36,7 +37,11 @@ RULE = ('per routine: random structured networks (Erdos-Renyi at 3 densities, pl
         '1/2, 7/8, 3/2, 19/10}; all five qtypes / four built-in objectives; initial partition none / random / one block / shuffled '
         'singletons / non-contiguous and negative labels, as ndarray or list; float or integer dtype; seed int or None; '
         'hierarchy=True for the Louvain routines; a 44-node increasing-weight path (23..32 sweeps); 143..150-node sparse networks '
-        'with > 127 modules (direct oracle); given-partition and spectral cases n=1..12; non-trivial = at least one accepted node '
+        'with > 127 modules (direct oracle); one 257..300-node sparse network (forty connected nodes at both ends of the numbering, '
+        'three planted groups, half-integer weights, negative / one-way links where accepted) WITH a start partition of 3..5 groups '
+        '(non-contiguous labels, ndarray or list) per routine that accepts one - the four fine-tuners, community_louvain, and '
+        'modularity_und / _dir / _und_sign with the partition given (three per routine thorough; direct oracle: labels 1..k, q of '
+        'the returned partition from the definition, a raise is <fn>:raises); given-partition and spectral cases n=1..12; non-trivial = at least one accepted node '
         'move; distinct by hash of (routine, matrix, gamma, type, initial partition, seed)')
 ASSUMES = ['weights are integers or dyadic rationals with total weight < 2^23: every sum of weights the model treats as exact is exact in binary64; quantities '
            'obtained by division are compared with tolerance 1e-9',
@@ -152,6 +157,49 @@ def run(ctx):
         ctx.case(pub(case), nontrivial=True)
         ctx.count('fn:' + fn); ctx.count('family:big-sparse'); ctx.count('modules>127', int(len(set(int(x) for x in ci)) > 127))
         check_pair(ctx, case, ci, q, fn, 'final result (n=%d, %d modules)' % (n, len(set(int(x) for x in ci))), n)
+
+    # ---------------- more than 256 nodes WITH a start partition, every optimiser that accepts one (direct oracle only); then the
+    # given-partition routines on such a network.  Own random stream: the draws of every other family stay what they were.
+    r2 = random.Random(ctx.seed * 1000003 + 2257)
+    for rep in range(ctx.scale(1, 3)):
+        for fn in [f for f in ROUTINES if ROUTINES[f].takes_ci]:
+            case = modq.over256_case(r2, fn)
+            n = case['n']
+            try:
+                ci, q, levels = modq.call_impl(case)
+            except Timeout:
+                ctx.fail(fn + ':terminates', 'no result within 20 s', pub(case)); continue
+            except Exception as e:
+                ctx.fail(fn + ':raises', 'raised %r' % (e,), pub(case)); continue
+            nmoves = sum(len(L['moves']) for L in levels)
+            ctx.case(pub(case), nontrivial=nmoves > 0)
+            ctx.count('fn:' + fn); ctx.count('family:over-256-with-ci'); ctx.count('over256:moves', nmoves)
+            check_pair(ctx, case, ci, q, fn, 'final result (n=%d, start partition of %d groups, %d moves)' % (n, len(set(case['ci'])), nmoves), n)
+        for which in ('und', 'dir', 'sign'):
+            base = modq.over256_case(r2, {'und': 'modularity_finetune_und', 'dir': 'modularity_finetune_dir', 'sign': 'modularity_finetune_und_sign'}[which])
+            Wx, n, g, kci = base['_W'], base['n'], base['_g'], base['ci']
+            A = np.array([[float(x) for x in row] for row in Wx], dtype=float)
+            name = 'modularity_und_sign' if which == 'sign' else 'modularity_' + which
+            case = {'fn': name, 'n': n, 'family': 'over-256-with-ci', 'W': base['W'], 'gamma': str(g), 'kci' if which != 'sign' else 'ci': kci}
+            try:
+                if which == 'sign':
+                    case['qtype'] = base['qtype']; case.pop('gamma')
+                    ci, q = call(bct.modularity_und_sign, A, np.array(kci), qtype=base['qtype'], _t=20.0)
+                    tq = modq.q_sign(Wx, kci, F(1), base['qtype'])
+                else:
+                    ci, q = call(bct.modularity_dir if which == 'dir' else bct.modularity_und, A, gamma=float(g), kci=np.array(kci), _t=20.0)
+                    tq = modq.q_def(Wx, kci, g, und=(which == 'und'))
+            except Exception as e:
+                tie_variants(case)
+                ctx.fail(name + ':raises', 'raised %r' % (e,), case); continue
+            tie_variants(case)
+            ctx.case(case, nontrivial=True)
+            ctx.count('fn:%s(kci)' % name if which != 'sign' else 'fn:' + name); ctx.count('family:over-256-with-ci')
+            if which == 'sign':
+                ctx.check(valid_labels(ci, n) and list(ci) == canon(kci), name + ':labels', 'returned labels are not the given partition relabelled 1..k', case)
+            else:
+                ctx.check(len(ci) == n and canon([int(x) for x in ci]) == canon(kci), name + ':given_partition', 'the given partition is not returned', case)
+            ctx.check(close(tq, q), name + ':q', 'q=%r, modularity of the given partition is %s (%.12g)' % (q, tq, float(tq)), case)
 
     # ---------------- given partition: modularity_und / modularity_dir / modularity_und_sign; spectral und/dir
     for t in range(ctx.scale(60, 600)):
